@@ -131,20 +131,22 @@ def _alt_defs(cfg: CFG, n: Node) -> List[Tuple[ast.AST, List[Tuple[ast.AST, bool
 # that amends a value computed for both configurations, or an early return for one configuration followed by the code of the other.  The rules about such a
 # method look at the code that RUNS in each configuration: the function with every choice on the flag resolved.  What they say about "the squashed path" is
 # then a statement about the configuration, not about the number or the shape of the branches the source happens to have.
-def _assume(fn: ast.AST, key: str, value: bool) -> ast.AST:
+def _assume(fn: ast.AST, key, value: bool) -> ast.AST:
     """A copy of the function as it runs when the attribute `key` is `value`: every choice on it (the test of an `if` statement or of a conditional
-    expression: the attribute itself, a local bound once to it, under `not` / `and` / `or`) is resolved and only the code of the arm taken is kept."""
+    expression: the attribute itself, a local bound once to it, under `not` / `and` / `or`) is resolved and only the code of the arm taken is kept.
+    `key` may also be a predicate on expressions that recognises the condition assumed (e.g. a type test of an attribute)."""
+    is_key = key if callable(key) else (lambda t: dotted(t) == key)
     stores: Dict[str, int] = {}
     for n in walk_no_nested(fn):
         if isinstance(n, ast.Name) and isinstance(n.ctx, ast.Store):
             stores[n.id] = stores.get(n.id, 0) + 1
     params = {a.arg for a in ast.walk(fn.args) if isinstance(a, ast.arg)}
     alias = {n.targets[0].id for n in walk_no_nested(fn) if isinstance(n, ast.Assign) and len(n.targets) == 1 and isinstance(n.targets[0], ast.Name)
-             and stores.get(n.targets[0].id) == 1 and n.targets[0].id not in params and dotted(n.value) == key}
+             and stores.get(n.targets[0].id) == 1 and n.targets[0].id not in params and is_key(n.value)}
 
     def reduce(t: ast.AST):
         """True / False when the test is decided by the assumption, what is left of it otherwise."""
-        if dotted(t) == key or (isinstance(t, ast.Name) and t.id in alias):
+        if is_key(t) or (isinstance(t, ast.Name) and t.id in alias):
             return value
         if isinstance(t, ast.UnaryOp) and isinstance(t.op, ast.Not):
             r = reduce(t.operand)
@@ -188,6 +190,20 @@ def _assume(fn: ast.AST, key: str, value: bool) -> ast.AST:
         if isinstance(x, (ast.stmt, ast.ExceptHandler)) and isinstance(getattr(x, "body", None), list) and not x.body:
             x.body = [ast.copy_location(ast.Pass(), x)]
     return ast.fix_missing_locations(new)
+
+
+def _origin(cfg: CFG, e: Optional[ast.AST], at: Optional[Node]) -> Optional[ast.AST]:
+    """The expression a value was computed by: through names and attributes with a single reaching plain binding (an element of an unpacked value comes
+    back as `<value>[<index>]`, see CFG.value_of_def)."""
+    for _ in range(8):
+        if at is None or not isinstance(e, (ast.Name, ast.Attribute)) or "?" in dotted(e):
+            break
+        ds = cfg.defs_reaching(at, dotted(e))
+        v = cfg.value_of_def(ds[0], dotted(e)) if len(ds) == 1 and ds[0].kind == "stmt" else None
+        if v is None:
+            break
+        e, at = v, ds[0]
+    return e
 
 
 def _operand(tb: TermBuilder, a: Optional[Atom], fname: str) -> Optional[Poly]:
@@ -539,19 +555,37 @@ def _log_prob(ck: Check, repo: Repo) -> None:
               detail=f"{key[:100]} enters the returned log-probability with factor {sorted(str(f) for f in e['factors'])}" + (", also without squash_output" if e["plain"] else ""))
     ck.ob("C16.4", fn, fn.node, exact and all(n_rets.values()), "exactly one squash correction", construct="squash correction in log_prob")
     sm = repo.fn(DM, "TorchDistribution.sample")
-    scfg = CFG(sm.node)
-    rets = [(v, gs) for n in scfg.live_nodes() if n.kind == "stmt" and isinstance(n.ast, ast.Return) for v, gs in _alt_defs(scfg, n)]
-    okt = False
-    okp = False
-    for v, gs in rets:
-        g = [(ast.unparse(gg), pol) for gg, pol in gs]
-        s = ast.unparse(v)
-        if ("self.squash_output", True) in g:
-            okt = s == "torch.tanh(self.sampled_action)"
-        else:
-            okp = s == "self.sampled_action"
-    ck.ob("C16.4", sm, sm.node, okt and okp, "sample() returns tanh(x) when squashing and x otherwise", construct="sample() return values")
-    ck.ob("C16.4", sm, sm.node, has(sm.node, 'self.sampled_action = self._handler.sample(self.distribution)'), "x is drawn from the wrapped distribution", construct="sample source")
+    # sample(), per configuration as well: the value handed back is tanh(x) in the squashed configuration and x in the plain one, where x is ONE draw
+    # `self._handler.sample(self.distribution)` — the draw the attribute log_prob reads (self.sampled_action) holds when sample() returns.  The draw may
+    # reach the return and the attribute directly or through locals / attributes bound once on the way (def-use chain, not the spelling of a statement).
+    def is_draw(e: Optional[ast.AST]) -> bool:
+        return isinstance(e, ast.Call) and call_name(e) == "self._handler.sample"
+
+    def unsquashed(e: Optional[ast.AST]) -> Optional[ast.AST]:
+        """x for tanh(x) spelled torch.tanh(x) or x.tanh()."""
+        if not (isinstance(e, ast.Call) and isinstance(e.func, ast.Attribute) and e.func.attr == "tanh" and not e.keywords):
+            return None
+        if dotted(e.func.value) in ("torch", "np"):
+            return e.args[0] if len(e.args) == 1 else None
+        return e.func.value if not e.args else None
+    okv = {True: False, False: False}  # configuration -> every value handed back is tanh(draw) / the draw itself (and there is one)
+    oks = {True: False, False: False}  # configuration -> the draw handed back is from the wrapped distribution and is the one kept in self.sampled_action
+    for squash in (True, False):
+        view = _assume(sm.node, "self.squash_output", squash)
+        scfg = CFG(view)
+        rets = [n for n in scfg.live_nodes() if n.kind == "stmt" and isinstance(n.ast, ast.Return)]
+        okv[squash] = oks[squash] = bool(rets)
+        for r in rets:
+            for v in _arms(r.ast.value):
+                x = _origin(scfg, v, r)
+                if squash:
+                    inner = unsquashed(x)
+                    x = _origin(scfg, inner, scfg.node_of(inner) or r) if inner is not None else None
+                okv[squash] = okv[squash] and is_draw(x)
+                kept = [_origin(scfg, scfg.value_of_def(d, "self.sampled_action"), d) if d.kind == "stmt" else None for d in scfg.defs_reaching(r, "self.sampled_action")]
+                oks[squash] = oks[squash] and is_draw(x) and dotted(get_kw(x, "distribution", 0) or x) == "self.distribution" and len(kept) == 1 and kept[0] is x
+    ck.ob("C16.4", sm, sm.node, okv[True] and okv[False], "sample() returns tanh(x) when squashing and x otherwise", construct="sample() return values")
+    ck.ob("C16.4", sm, sm.node, oks[True] and oks[False], "x is drawn from the wrapped distribution", construct="sample source")
     en = repo.fn(DM, "TorchDistribution.entropy")
     ecfg = CFG(en.node)
     erets = [(v, [(ast.unparse(gg), pol) for gg, pol in gs]) for n in ecfg.live_nodes() if n.kind == "stmt" and isinstance(n.ast, ast.Return) for v, gs in _alt_defs(ecfg, n)]
@@ -636,8 +670,32 @@ def _forward(ck: Check, repo: Repo) -> None:
     src = ast.unparse(sa.node)
     ck.ob("C16.5", sa, sa.node, has(src, '$action, $log_prob, $entropy = self.head_net.forward($latent, $action_mask)') and has(src, 'return ($action, $log_prob, $entropy)'),
           "the actor returns the head's action, log-probability and entropy", construct="StochasticActor.forward passthrough")
-    ck.ob("C16.4", sa, sa.node, has(src, 'if isinstance(self.action_space, spaces.Box) and self.squash_output:\n    $action = self.scale_action($action)'),
-          "only squashed continuous actions are rescaled to the action bounds", construct="StochasticActor.forward scaling")
+    # the four configurations of the actor (squashing or not, continuous action space or not; see _assume): the action handed back is the head's action passed
+    # through scale_action, once, when both hold, and the head's action itself in the other three — whatever the branches, temporaries and returns look like
+    def is_box(t: ast.AST) -> bool:
+        return (isinstance(t, ast.Call) and call_name(t) == "isinstance" and len(t.args) == 2 and not t.keywords and dotted(t.args[0]) == "self.action_space"
+                and dotted(t.args[1]).split(".")[-1] == "Box")
+
+    def head_action(e: Optional[ast.AST]) -> bool:
+        """element 0 of what the head's forward pass returned"""
+        return (isinstance(e, ast.Subscript) and const_value(e.slice) == 0 and not isinstance(const_value(e.slice), bool) and getattr(e, "_unpack_len", None) == 3
+                and isinstance(e.value, ast.Call) and call_name(e.value) in ("self.head_net.forward", "self.head_net"))
+    scaled_ok = True
+    for squash in (True, False):
+        for box in (True, False):
+            view = _assume(_assume(sa.node, "self.squash_output", squash), is_box, box)
+            vcfg = CFG(view)
+            vrets = [n for n in vcfg.live_nodes() if n.kind == "stmt" and isinstance(n.ast, ast.Return)]
+            scaled_ok = scaled_ok and bool(vrets)
+            for r in vrets:
+                for v in _arms(r.ast.value):
+                    v = _origin(vcfg, v, r)
+                    x = _origin(vcfg, v.elts[0], vcfg.node_of(v) or r) if isinstance(v, ast.Tuple) and v.elts else None
+                    if squash and box:
+                        inner = x.args[0] if isinstance(x, ast.Call) and call_name(x) == "self.scale_action" and len(x.args) == 1 and not x.keywords else None
+                        x = _origin(vcfg, inner, vcfg.node_of(inner) or r) if inner is not None else None
+                    scaled_ok = scaled_ok and head_action(x)
+    ck.ob("C16.4", sa, sa.node, scaled_ok, "only squashed continuous actions are rescaled to the action bounds", construct="StochasticActor.forward scaling")
     sc = repo.fn(AM, "StochasticActor.scale_action")
     tb = TermBuilder(repo, sc, depth=0)
     rets = [n for n in tb.cfg.live_nodes() if n.kind == "stmt" and isinstance(n.ast, ast.Return)]
@@ -1226,6 +1284,13 @@ _FW_BODY = ("        # Distribution from logits\n        self.dist = self.get_di
             "        action = self.dist.sample()\n        log_prob = self.dist.log_prob(action)\n        entropy = self.dist.entropy()\n        return action, log_prob, entropy\n")
 _FW_LOCAL = ("        dist = self.get_distribution(logits)\n        self.dist = dist\n\n        action = dist.sample()\n        entropy = dist.entropy()\n"
              "        log_prob = dist.log_prob(action)\n        return action, log_prob, entropy\n")
+_SM_BODY = ("        self.sampled_action = self._handler.sample(self.distribution)\n\n        if self.squash_output:\n            return torch.tanh(self.sampled_action)\n\n"
+            "        return self.sampled_action\n")
+_SM_LOCAL = ("        raw_action = self._handler.sample(self.distribution)\n        self.sampled_action = raw_action\n"
+             "        return torch.tanh(raw_action) if self.squash_output else raw_action\n")
+_SC_BODY = "        if isinstance(self.action_space, spaces.Box) and self.squash_output:\n            action = self.scale_action(action)\n\n        return action, log_prob, entropy\n"
+_SC_EARLY = ("        if not (isinstance(self.action_space, spaces.Box) and self.squash_output):\n            return action, log_prob, entropy\n\n"
+             "        return self.scale_action(action), log_prob, entropy\n")
 VARIANTS = [
     ("ppo-acting-path-through-rescaling-forward", "agilerl/algorithms/ppo.py", "        latent_pi = self.actor.extract_features(obs)\n        action, log_prob, entropy = self.actor.forward_head(\n            latent_pi, action_mask=action_mask\n        )",
      "        latent_pi = self.actor.extract_features(obs)\n        action, log_prob, entropy = self.actor(obs, action_mask=action_mask)", "fire", "C16.11"),
@@ -1349,4 +1414,20 @@ VARIANTS = [
     ('forward-local-logprob-of-a-second-sample', _DF, _FW_BODY, _FW_LOCAL.replace('dist.log_prob(action)', 'dist.log_prob(dist.sample())'), 'fire', 'C16.5'),
     ('forward-sample-from-the-previous-dist', _DF, _FW_BODY, _FW_LOCAL.replace('        dist = self.get_distribution(logits)\n        self.dist = dist\n', '        dist = self.dist\n        self.dist = self.get_distribution(logits)\n'), 'fire', 'C16.5'),
     ('forward-entropy-of-the-previous-dist', _DF, _FW_BODY, _FW_LOCAL.replace('        dist = self.get_distribution(logits)\n        self.dist = dist\n\n', '        old = self.dist\n        dist = self.get_distribution(logits)\n        self.dist = dist\n\n').replace('dist.entropy()', 'old.entropy()'), 'fire', 'C16.5'),
+    # TorchDistribution.sample: the draw kept in the attribute only <-> in a local as well, handed back by one conditional expression
+    ('sample-draw-through-a-local-ok', _DF, _SM_BODY, _SM_LOCAL, 'silent', None),
+    ('sample-local-returns-a-second-draw', _DF, _SM_BODY, _SM_LOCAL.replace('self.sampled_action = raw_action', 'self.sampled_action = self._handler.sample(self.distribution)'), 'fire', 'C16.4'),
+    ('sample-local-draw-not-kept', _DF, _SM_BODY, _SM_LOCAL.replace('        self.sampled_action = raw_action\n', ''), 'fire', 'C16.4'),
+    ('sample-local-squashed-value-kept', _DF, _SM_BODY, _SM_LOCAL.replace('self.sampled_action = raw_action', 'self.sampled_action = torch.tanh(raw_action)'), 'fire', 'C16.4'),
+    ('sample-local-tanh-twice', _DF, _SM_BODY, _SM_LOCAL.replace('torch.tanh(raw_action) if', 'torch.tanh(torch.tanh(raw_action)) if'), 'fire', 'C16.4'),
+    ('sample-local-tanh-in-both-configurations', _DF, _SM_BODY, _SM_LOCAL.replace('torch.tanh(raw_action) if self.squash_output else raw_action', 'torch.tanh(raw_action)'), 'fire', 'C16.4'),
+    ('sample-local-arms-swapped', _DF, _SM_BODY, _SM_LOCAL.replace('torch.tanh(raw_action) if self.squash_output else raw_action', 'raw_action if self.squash_output else torch.tanh(raw_action)'), 'fire', 'C16.4'),
+    # StochasticActor.forward: the rescaling as an amendment under the condition <-> an early return for the other configurations
+    ('actor-scaling-early-return-ok', _AF, _SC_BODY, _SC_EARLY, 'silent', None),
+    ('actor-scaling-early-return-for-the-squashed-box', _AF, _SC_BODY, _SC_EARLY.replace('if not (isinstance(self.action_space, spaces.Box) and self.squash_output):', 'if isinstance(self.action_space, spaces.Box) and self.squash_output:'), 'fire', 'C16.4'),
+    ('actor-scaling-early-return-either-condition', _AF, _SC_BODY, _SC_EARLY.replace('spaces.Box) and self.squash_output', 'spaces.Box) or self.squash_output'), 'fire', 'C16.4'),
+    ('actor-scaling-early-return-any-squashed-space', _AF, _SC_BODY, _SC_EARLY.replace('if not (isinstance(self.action_space, spaces.Box) and self.squash_output):', 'if not self.squash_output:'), 'fire', 'C16.4'),
+    ('actor-scaling-early-return-scaled-twice', _AF, _SC_BODY, _SC_EARLY.replace('self.scale_action(action)', 'self.scale_action(self.scale_action(action))'), 'fire', 'C16.4'),
+    ('actor-scaling-in-every-configuration', _AF, _SC_BODY, '        return self.scale_action(action), log_prob, entropy\n', 'fire', 'C16.4'),
+    ('actor-scaling-early-return-scaled-value-not-returned', _AF, _SC_BODY, _SC_EARLY.replace('        return self.scale_action(action), log_prob', '        scaled = self.scale_action(action)\n        return action, log_prob'), 'fire', 'C16.4'),
 ]
